@@ -472,7 +472,10 @@ pub fn gate_lanes(role: Role) -> Vec<(i32, Option<Point>, u64)> {
 pub fn gate_grant(tid: i32, n: u32) {
     let mut g = gate_lock();
     if let Some(gt) = g.as_mut() {
-        gt.lanes.entry(tid).or_default().permits += n;
+        let l = gt.lanes.entry(tid).or_default();
+        l.permits += n;
+        // from the controller's point of view the thread has left the gate now
+        l.waiting = None;
     }
     drop(g);
     GATE_CV.notify_all();
